@@ -7,7 +7,7 @@ EXPLANATION = ("Decides on the MIR of the current tree the direction of C02 that
                "causality (Y2), the acquire-fence predicate is thread-local (O4), the user's Ordering reaches the runtime unmodified for every "
                "atomic front-end method (O1), compare_and_swap's failure-ordering table (O2) and that loads/RMWs seed the read-from branch with "
                "all candidate stores and use the branch's choice (O3). Which candidate stores are offered depends on clock values and is not decided."
-               " G0/G1 cross-check the acquire/release/join steps against the reference tree.")
+               " G0/G1 cross-check the acquire/release/join steps against the reference tree. A read-modify-write that can fail is offered what a load could read on its failure path (M7; on the current tree it is not: known finding KF-P).")
 RULE_TEXT = "rule instances = ordering-table cells, causality writers, front-end methods x atomic types; non-trivial when matched to concrete MIR"
 LEVEL_NOTE = "necessary conditions only"
 
@@ -23,6 +23,8 @@ def run(ctx):
     atomics.O1(ctx)
     atomics.O2(ctx)
     atomics.O3(ctx)
+    from . import round6
+    round6.M7(ctx)
     atomics.M5(ctx)
     atomics.R1(ctx)
     atomics.N5(ctx)
